@@ -1,0 +1,15 @@
+//go:build verif
+
+package nat
+
+import "github.com/cilium/ebpf"
+
+// SetSessionMapsForVerif injects the nat_sessions, nat_reverse and eim_table eBPF maps exactly as
+// Start() would after loading the collection (no program is loaded or attached), so that the
+// verification harness can run the manager against the session state the nat44 programs create.
+// Verification harness only.
+func (m *Manager) SetSessionMapsForVerif(natSessions, natReverse, eimTable *ebpf.Map) {
+	m.natSessions = natSessions
+	m.natReverse = natReverse
+	m.eimTable = eimTable
+}
